@@ -737,11 +737,42 @@ def mirror_rule(F, rep):
                     continue
                 out[k2] = canon(v, bound)
             return out
+        roots = []
         for st in h["body"]["b"].get("stmts", []):
             if st.get("k") == "LetStmt" and "e" in st and st["p"].get("k") == "Bind":
                 c = canon(st["e"], {})
                 lets[st["p"]["name"]] = c
                 order.append((st["p"]["name"], c, st.get("l")))
+            elif st.get("k") == "LetStmt" and "e" in st:
+                roots.append((canon(st["e"], {}), st.get("l")))
+            else:
+                roots.append((canon(st, {}), st.get("l")))
+        if h["body"]["b"].get("e") is not None:
+            roots.append((canon(h["body"]["b"]["e"], {}), h["body"]["b"]["e"].get("l")))
+
+        def mentions(c):
+            txt = json.dumps(c, sort_keys=True)
+            return ('"P0"' in txt, '"P1"' in txt)
+
+        def maximal(c, line, out):
+            """maximal sub-expressions that mention exactly one of the two operands (helper calls on one operand, per-operand tuples ...)"""
+            if isinstance(c, list):
+                for x in c:
+                    maximal(x, line, out)
+                return
+            if not isinstance(c, dict):
+                return
+            m0, m1 = mentions(c)
+            if m0 and m1:
+                for v in c.values():
+                    maximal(v, line, out)
+            elif (m0 or m1) and "k" in c and c.get("k") not in ("Path",):
+                txt = json.dumps(c, sort_keys=True)
+                ren = {}
+                for b_ in re.findall(r'"b\d+"', txt):
+                    ren.setdefault(b_, '"v%d"' % len(ren))
+                txt = re.sub(r'"b\d+"', lambda m_: ren[m_.group(0)], txt)     # pattern-bound locals numbered within the expression
+                out[0 if m0 else 1].append(("expr", txt, line))
         pure = {0: [], 1: []}
         mixed = []
         for nm, c, line in order:
@@ -749,10 +780,22 @@ def mirror_rule(F, rep):
             has0, has1 = '"P0"' in txt, '"P1"' in txt
             if has0 and has1:
                 mixed.append((nm, txt, line))
+                maximal(c, line, pure)
             elif has0:
                 pure[0].append((nm, txt, line))
             elif has1:
                 pure[1].append((nm, txt, line))
+        for c, line in roots:
+            maximal(c, line, pure)
+        # a let-bound per-operand value that is inlined into a later one is part of that later value; compare the distinct computations
+        for k_ in (0, 1):
+            seen_t = set()
+            uniq = []
+            for nm, t, line in pure[k_]:
+                if t not in seen_t:
+                    seen_t.add(t)
+                    uniq.append((nm, t, line))
+            pure[k_] = uniq
         erase = lambda t: t.replace('"P0"', '"P"').replace('"P1"', '"P"')
         shapes = {erase(t) for _, t, _ in pure[0] + pure[1]}
         key = "mirror:%s" % fn
@@ -765,6 +808,8 @@ def mirror_rule(F, rep):
         elif swapped != sorted(t for _, t, _ in pure[1]):
             rep.violation(rid, key, "%s derives %d value(s) from its first operand and %d from its second, and they are not the same computations with the operands exchanged"
                           % (fn, len(pure[0]), len(pure[1])), "%s:%s" % (h["file"], h["line"]))
+        elif not pure[0]:
+            rep.undecided(rid, key, "%s computes nothing from one operand alone (everything is delegated with both operands)" % fn)
         else:
             rep.ok(rid, key, "%d intermediate values per operand, identical up to exchanging the operands" % len(pure[0]))
-    rep.floor(rid, "per-operand intermediate values in compare/subtract", n, 8)
+    rep.floor(rid, "per-operand intermediate values in compare/subtract", n, 2)
